@@ -21,6 +21,26 @@ ADVERSARIAL = [
 ]
 
 
+SPECIAL_NAMES = ["Union", "Tuple", "Callable", "Any", "None", "Exception", "Int", "Float", "Str", "Bool", "Complex", "Enum", "Collection", "Range",
+                 "Slice", "Set", "List", "Dict", "Optional", "ABC", "Generic", "size", "init", "__init__", "super", "self", "print", "range", "math",
+                 "typing", "abc", "str", "int", "list", "object", "type", "True", "False", "undefined", "it", "other", "__add__", "__str__", "__size__"]
+
+
+def special_name_programs():
+    """names the checker or generator special-case, in every kind of definition"""
+    out = []
+    for n in SPECIAL_NAMES:
+        out += ["class %s(def a: Int)\n    def m(self) -> Int => self.a\ndef o := %s(3)\nprint(o.m())\n" % (n, n),
+                "class %s\n    def a: Int := 1\ndef o := %s()\nprint(o.a)\n" % (n, n),
+                "type %s\n    def m(fin self) -> Int\nclass K(def a: Int): %s\n    def m(fin self) -> Int => self.a\n" % (n, n),
+                "def %s := 1\nprint(%s + 1)\n" % (n, n), "def %s: Int := 1\n%s := 2\n" % (n, n),
+                "def %s(a: Int) -> Int => a\nprint(%s(1))\n" % (n, n), "def f(%s: Int) -> Int => %s + 1\nprint(f(1))\n" % (n, n),
+                "class K(def %s: Int)\n    def m(self) -> Int => self.%s\nprint(K(1).m())\n" % (n, n),
+                "class K\n    def %s(self) -> Int => 1\ndef o := K()\nprint(o.%s())\n" % (n, n),
+                "for %s in 0 .. 3 do print(%s)\n" % (n, n), "def x: %s := 1\n" % n, "def x: %s[Int] := 1\n" % n, "def x := %s\n" % n]
+    return out
+
+
 def deep_programs():
     out = []
     for depth in (5, 20, 40):
@@ -50,6 +70,7 @@ def run(chk):
         return
     rng = chk.rng
     cases = [("adversarial", t) for t in ADVERSARIAL] + [("deep", t) for t in deep_programs()]
+    cases += [("special-name", t) for t in special_name_programs()]
     cases += [("corpus", f["input"]) for f in chk.findings if f.get("input")]
     n = 6000 if thorough else 1000
     cases += [("random", gen_lex.random_text(rng, rng.randint(1, 60))) for _ in range(n)]
